@@ -28,7 +28,7 @@ namespace KinModel.Conc
 inductive Root | global | param | call | alias | viaGlobal
   deriving DecidableEq, Repr
 
-inductive Sync | none | mutex | syncMap | once | nilGuardInit | nilGuardNoInit | nilGuardCtor | nilGuardField
+inductive Sync | none | mutex | syncMap | syncMapCasNil | syncMapLoad | once | nilGuardInit | nilGuardNoInit | nilGuardCtor | nilGuardField
   deriving DecidableEq, Repr
 
 /-- one write to (possibly) shared state found by the translator; `via` = entry point whose parameter leads
@@ -50,6 +50,8 @@ inductive Act
   | lazyInit (c : Cell) (v : Val)
   | syncStore (c : Cell) (v : Val)   -- synchronised UNCONDITIONAL store (`typeInfos[t] = ti` under the mutex)
   | syncRead (c : Cell)              -- synchronised read whose value the thread goes on to USE
+  | cacheUse (c : Cell) (v : Val)    -- `m, ok := cache.Load(k); if !ok { m = compute(k, per-call options) }; use m`:
+                                     -- observes the value it ends up USING: the cached one if any, else its own `v`
   deriving DecidableEq, Repr
 
 abbrev State := Cell → Val
@@ -64,12 +66,14 @@ def stepState (σ : State) : Act → State
   | .lazyInit c v => fun x => if x = c then fillVal (σ c) v else σ x
   | .syncStore c v => fun x => if x = c then v else σ x
   | .syncRead _ => σ
+  | .cacheUse _ _ => σ
 
 /-- what the acting thread observes (its verdict is a function of the list of these) -/
 def stepObs (σ : State) : Act → Option Val
   | .read c => some (σ c)
   | .lazyInit c v => some (if σ c = 0 then v else σ c)
   | .syncRead c => some (σ c)
+  | .cacheUse c v => some (fillVal (σ c) v)
   | _ => none
 
 inductive Access | plainRead | plainWrite | sync
@@ -88,6 +92,7 @@ def stepAcc (σ : State) : Act → Cell × Access
   | .lazyInit c _ => (c, if σ c = 0 then .plainWrite else .plainRead)
   | .syncStore c _ => (c, .sync)
   | .syncRead c => (c, .sync)
+  | .cacheUse c _ => (c, .sync)
 
 abbrev Trace := List (Nat × Act)
 
@@ -150,6 +155,17 @@ def cleanAct (k : Cfg) : Act → Bool
   | .lazyInit c _ => k.lazy.contains c && !k.cache.contains c
   | .syncStore _ _ => false   -- race-free, but last-writer-wins: a cache written this way is not transparent
   | .syncRead _ => false      -- … to a thread that uses what it reads back
+  | .cacheUse c _ => !k.cache.contains c   -- using a cache is clean exactly when nothing fills it (then the thread
+                                           -- uses its own value, computed with its own per-call options)
+
+/-- "a cache whose content is used is not filled" -/
+def useOK (k : Cfg) : Act → Bool
+  | .cacheUse c _ => !k.cache.contains c
+  | _ => true
+
+def isUse : Act → Bool
+  | .cacheUse _ _ => true
+  | _ => false
 
 def CleanTrace (k : Cfg) (tr : Trace) : Prop := ∀ x ∈ tr, cleanAct k x.2 = true
 
@@ -177,6 +193,7 @@ theorem lazy_step (k : Cfg) (σ : State) (a : Act) (hc : cleanAct k a = true) (h
   | write c' v => simp [cleanAct] at hc
   | syncStore c' v => simp [cleanAct] at hc
   | syncRead c' => simp [cleanAct] at hc
+  | cacheUse c' v => simpa [stepState] using h0
   | cacheFill c' v =>
     simp only [stepState]
     by_cases hx : c = c'
@@ -195,6 +212,7 @@ theorem acc_not_write (k : Cfg) (σ : State) (a : Act) (hc : cleanAct k a = true
   | write c v => simp [cleanAct] at hc
   | syncStore c v => simp [cleanAct] at hc
   | syncRead c => simp [cleanAct] at hc
+  | cacheUse c v => simp [stepAcc]
   | cacheFill c v => simp [stepAcc]
   | lazyInit c v =>
     simp only [cleanAct, Bool.and_eq_true, List.contains_iff_mem] at hc
@@ -221,6 +239,9 @@ theorem agree_step (k : Cfg) (σ τ : State) (a : Act) (hag : AgreeOff k σ τ) 
   | write c v => simp [cleanAct] at hc
   | syncStore c v => simp [cleanAct] at hc
   | syncRead c => simp [cleanAct] at hc
+  | cacheUse c v =>
+    have hcn : c ∉ k.cache := by simpa [cleanAct] using hc
+    exact ⟨by simpa [stepState] using hag, by simp [stepObs, hag c hcn]⟩
   | cacheFill c v =>
     have hcm : c ∈ k.cache := by simpa [cleanAct] using hc
     refine ⟨?_, by simp [stepObs]⟩
@@ -245,6 +266,7 @@ theorem agree_other (k : Cfg) (σ τ : State) (a : Act) (hag : AgreeOff k σ τ)
   | write c v => simp [cleanAct] at hc
   | syncStore c v => simp [cleanAct] at hc
   | syncRead c => simp [cleanAct] at hc
+  | cacheUse c v => simpa [stepState] using hag
   | cacheFill c v =>
     have hcm : c ∈ k.cache := by simpa [cleanAct] using hc
     intro x hx
@@ -272,7 +294,7 @@ theorem final_agree (k : Cfg) : ∀ (tr : Trace) (σ τ : State), CleanTrace k t
 
 /-! ## reading the generated table -/
 
-inductive RowClass | cache | lazyDecl | lazyCtor | outParam | plain | unread
+inductive RowClass | cache | cacheLoad | inertCas | lazyDecl | lazyCtor | outParam | plain | unread
   deriving DecidableEq, Repr
 
 /-- entry points whose reference parameters are caller-owned, per-call output (`schemas` of
@@ -284,6 +306,8 @@ def rowClass : SharedWrite → RowClass
   | .write _ _ _ _ root sync _ via =>
     match sync with
     | .mutex | .syncMap | .once => .cache
+    | .syncMapLoad => .cacheLoad     -- the caller USES what a process-wide cache holds
+    | .syncMapCasNil => .inertCas    -- `CompareAndSwap(k, nil, v)`: stores nothing for an absent key
     | .nilGuardInit => .lazyDecl
     | .nilGuardCtor => .lazyCtor
     | _ => if root = .param && outParamEntries.contains via then .outParam else .plain
@@ -292,26 +316,44 @@ def rowClass : SharedWrite → RowClass
     initialised (by its declaration / by the constructor), or per-call output -/
 def rowOK (w : SharedWrite) : Bool := rowClass w != .plain && rowClass w != .unread
 
-/-- the footprint the table denotes: row number k is cell k -/
-def tableActsFrom : Nat → List SharedWrite → List Act
+def rowGlobal : SharedWrite → Option String
+  | .write _ _ _ _ root _ g _ => if root = .global || root = .viaGlobal then some g else none
+  | .unrecognised _ => none
+
+def firstIdxFrom (g : String) : Nat → List SharedWrite → Option Nat
+  | _, [] => none
+  | k, w :: ws => if rowGlobal w = some g then some k else firstIdxFrom g (k + 1) ws
+
+/-- the cell a row is about: all rows on one package-level variable share a cell (the number of the first of
+    them); any other row has its own -/
+def rowCell (t : List SharedWrite) (k : Nat) (w : SharedWrite) : Cell :=
+  match rowGlobal w with
+  | some g => (firstIdxFrom g 0 t).getD k
+  | none => k
+
+/-- the footprint the table denotes -/
+def tableActsFrom (t : List SharedWrite) : Nat → List SharedWrite → List Act
   | _, [] => []
   | k, w :: ws =>
     (match rowClass w with
-     | .cache => [Act.cacheFill k 1]
-     | .lazyDecl | .lazyCtor => [Act.lazyInit k 1]
+     | .cache => [Act.cacheFill (rowCell t k w) 1]
+     | .cacheLoad => [Act.cacheUse (rowCell t k w) 1]
+     | .inertCas => []
+     | .lazyDecl | .lazyCtor => [Act.lazyInit (rowCell t k w) 1]
      | .outParam => []
-     | _ => [Act.write k 1]) ++ tableActsFrom (k + 1) ws
+     | _ => [Act.write (rowCell t k w) 1]) ++ tableActsFrom t (k + 1) ws
 
-def tableCacheFrom : Nat → List SharedWrite → List Cell
+def tableCacheFrom (t : List SharedWrite) : Nat → List SharedWrite → List Cell
   | _, [] => []
-  | k, w :: ws => (if rowClass w = .cache then [k] else []) ++ tableCacheFrom (k + 1) ws
+  | k, w :: ws => (if rowClass w = .cache then [rowCell t k w] else []) ++ tableCacheFrom t (k + 1) ws
 
-def tableLazyFrom : Nat → List SharedWrite → List Cell
+def tableLazyFrom (t : List SharedWrite) : Nat → List SharedWrite → List Cell
   | _, [] => []
-  | k, w :: ws => (if rowClass w = .lazyDecl ∨ rowClass w = .lazyCtor then [k] else []) ++ tableLazyFrom (k + 1) ws
+  | k, w :: ws =>
+    (if rowClass w = .lazyDecl ∨ rowClass w = .lazyCtor then [rowCell t k w] else []) ++ tableLazyFrom t (k + 1) ws
 
-def tableActs (t : List SharedWrite) : List Act := tableActsFrom 0 t
-def tableCfg (t : List SharedWrite) : Cfg := { cache := tableCacheFrom 0 t, lazy := tableLazyFrom 0 t }
+def tableActs (t : List SharedWrite) : List Act := tableActsFrom t 0 t
+def tableCfg (t : List SharedWrite) : Cfg := { cache := tableCacheFrom t 0 t, lazy := tableLazyFrom t 0 t }
 
 /-- (global variable, class) of a row — what the concrete footprints of `ConcCase` must account for -/
 def rowKey (w : SharedWrite) : String × RowClass :=
@@ -321,8 +363,9 @@ def rowKey (w : SharedWrite) : String × RowClass :=
 
 /-- the rows the concrete operation footprints (`ConcCase.opActs`) account for -/
 def modelledRows : List (String × RowClass) :=
-  [ ("compiledPatterns", .cache),            -- patCell: cacheFill
-    ("typeInfos", .cache),                   -- typeCell: cacheFill
+  [ ("compiledPatterns", .cacheLoad),        -- patCell: cacheUse (the matcher found in the cache is USED) …
+    ("compiledPatterns", .inertCas),         -- … and nothing ever fills it (`CompareAndSwap(pattern, nil, cp)`)
+    ("typeInfos", .cache),                   -- typeCell: cacheFill (value is a function of the key alone)
     ("sliceUniqueItemsChecker", .lazyDecl),  -- uniqCell: lazyInit on an initialised cell
     ("routers/legacy.(*Router).node", .lazyCtor),  -- part of routerCell: NewRouter creates the node
     ("openapi3gen.(*Generator).NewSchemaRefForValue", .outParam) ]  -- caller-owned output map
